@@ -95,3 +95,19 @@ def merge_first_wins(a: dict, b: dict) -> dict:
         else:
             out[k] = v
     return out
+
+
+def refers_to_own_key(key: Any, value: Any) -> bool:
+    """the documented exception of merge(): an existing entry that merely refers to its own key ($key, bare, indexed or
+    inside an expression) is a placeholder the merge may fill"""
+    return isinstance(key, str) and isinstance(value, str) and re.search(r"\$" + re.escape(key) + r"(?!\w)", value) is not None
+
+
+def merge_first_wins_selfref(a: dict, b: dict, top: bool = True) -> dict:
+    out = dict(a)
+    for k, v in b.items():
+        if k in out and isinstance(out[k], dict) and isinstance(v, dict):
+            out[k] = merge_first_wins_selfref(out[k], v, False)
+        elif k not in out or (top and refers_to_own_key(k, out[k])):
+            out[k] = v
+    return out
